@@ -188,6 +188,21 @@ def step(rig: Rig, edge: t.Dict[str, t.Any]) -> t.List[t.Tuple[str, str, str]]:
             diffs.append(("C12", f"drain-type/{rig.role}", f"data_to_send returned {type(got).__name__}"))
         if rig.s.state != st0:
             diffs.append(("C12", f"drain-changes-state/{rig.role}", f"state {st0.name} -> {rig.s.state.name} by data_to_send"))
+        kept = rig.__dict__.setdefault("kept", [])
+        try:
+            kept.append((got, bytes(got)))
+        except Exception:  # noqa: BLE001
+            pass
+    # octets handed to the transport are the caller's: nothing the session does later may change them
+    for obj, snap in rig.__dict__.get("kept", [])[-6:]:
+        try:
+            same = bytes(obj) == snap
+        except Exception:  # noqa: BLE001
+            same = False
+        if not same:
+            diffs.append(("C12", f"returned-chunk-changed/{rig.role}", f"octets returned by an earlier data_to_send changed after {op}"))
+            rig.__dict__["kept"] = []
+            break
     # what is queued now, observed on a clone so that the walk is not disturbed
     q = copy.deepcopy(rig.s).data_to_send()
     if q != rig.pending():
